@@ -1,6 +1,158 @@
 package main
 
-type caseC struct{}
+import (
+	"fmt"
+	"math/big"
 
-func (e *env) partC(shard, nshards int) {}
-func (e *env) replayC(c caseC)          {}
+	sdk "github.com/cosmos/cosmos-sdk/types"
+	evmtypes "github.com/palomachain/paloma/v2/x/evm/types"
+	schedtypes "github.com/palomachain/paloma/v2/x/scheduler/types"
+	"github.com/palomachain/paloma/v2/zzverif/world"
+)
+
+// ---------------------------------------------------------------------------
+// (c) fees
+
+type caseC struct {
+	Mult string `json:"relayer_multiplier"`
+	Gas  string `json:"elected_gas"`
+	RC   string `json:"community_rate"`
+	RS   string `json:"security_rate"`
+}
+
+func (c caseC) String() string {
+	return fmt.Sprintf("multiplier=%s gas=%s community=%s security=%s", c.Mult, c.Gas, c.RC, c.RS)
+}
+
+var (
+	cMults = []string{"0.000001", "0.5", "1", "1.000001", "2.5", "1000000"}
+	cGas   = []string{"1", "21000", "4294967296", "9007199254740993", "18446744073709551615"}
+	cRates = []string{"0.01", "0.3", "1", "2.5"}
+	maxU64 = new(big.Int).SetUint64(^uint64(0))
+)
+
+func rat(s string) *big.Rat {
+	r, ok := new(big.Rat).SetString(s)
+	if !ok {
+		panic("rat " + s)
+	}
+	return r
+}
+
+func ceilRat(r *big.Rat) *big.Int {
+	q, m := new(big.Int).DivMod(r.Num(), r.Denom(), new(big.Int))
+	if m.Sign() != 0 {
+		q.Add(q, big.NewInt(1))
+	}
+	return q
+}
+
+func (e *env) evalC(c caseC) {
+	w, r := e.w, e.r
+	rec := replayRec{Part: "c", C: &c}
+	ctx := world.Fork(w.Root)
+	for _, v := range w.Vals {
+		must(w.SetFee(ctx, v, target, c.Mult))
+	}
+	w.App.MetrixKeeper.OnSnapshotBuilt(ctx, e.baseSnap)
+	must(w.App.TreasuryKeeper.SetCommunityFundFee(ctx, c.RC))
+	must(w.App.TreasuryKeeper.SetSecurityFee(ctx, c.RS))
+	r.Case("")
+	r.DistinctN++
+	if res := w.DeliverTx(ctx, []*world.Actor{e.s1}, &schedtypes.MsgExecuteJob{JobID: jobN, Metadata: world.Meta(e.s1)}); !res.OK() {
+		r.Violate("harness:c:execute-job", fmt.Sprintf("%s: %v", c, res.Err), rec)
+		return
+	}
+	msgs := w.Queue(ctx, e.queue)
+	if len(msgs) != 1 {
+		r.Violate("harness:c:queue", fmt.Sprintf("%s: %d messages queued", c, len(msgs)), rec)
+		return
+	}
+	id := msgs[0].GetId()
+	gas, _ := new(big.Int).SetString(c.Gas, 10)
+	for _, v := range w.Vals {
+		if res := w.DeliverTx(ctx, []*world.Actor{v.Actor}, world.Estimate(v, e.queue, id, gas.Uint64())); !res.OK() {
+			r.Violate("harness:c:estimate", fmt.Sprintf("%s: estimate by %s: %v", c, v.Name, res.Err), rec)
+			return
+		}
+	}
+	d0 := w.StoreDigest(ctx, "consensus")
+	if err, panicked := world.Protect(func() error { return w.EndBlock(ctx) }); err != nil {
+		sig := "fees:end-block-error"
+		if panicked {
+			sig = "fees:end-block-panic"
+		}
+		r.Violate(sig, fmt.Sprintf("%s: EndBlock: %v", c, err), rec)
+		return
+	}
+	// reference
+	relayer := ceilRat(new(big.Rat).Mul(rat(c.Mult), new(big.Rat).SetInt(gas)))
+	community := ceilRat(new(big.Rat).Mul(rat(c.RC), new(big.Rat).SetInt(relayer)))
+	security := ceilRat(new(big.Rat).Mul(rat(c.RS), new(big.Rat).SetInt(relayer)))
+	fits := relayer.Cmp(maxU64) <= 0 && community.Cmp(maxU64) <= 0 && security.Cmp(maxU64) <= 0
+
+	msgs = w.Queue(ctx, e.queue)
+	if len(msgs) != 1 || msgs[0].GetId() != id {
+		r.Violate("fees:message-lost", fmt.Sprintf("%s: queue after election has %d messages", c, len(msgs)), rec)
+		return
+	}
+	cm, err := msgs[0].ConsensusMsg(w.App.AppCodec())
+	em, _ := cm.(*evmtypes.Message)
+	if err != nil || em == nil || em.GetSubmitLogicCall() == nil {
+		r.Violate("fees:message-lost", fmt.Sprintf("%s: message unreadable after election: %v", c, err), rec)
+		return
+	}
+	fees := em.GetSubmitLogicCall().Fees
+	if !fits {
+		e.count("c_out_of_range_refused")
+		if msgs[0].GetGasEstimate() != 0 || fees != nil || w.StoreDigest(ctx, "consensus") != d0 {
+			r.Violate("fees:out-of-range-not-refused-cleanly", fmt.Sprintf("%s: reference fees (%s, %s, %s) do not fit uint64 but the message changed: elected=%d fees=%v", c, relayer, community, security, msgs[0].GetGasEstimate(), fees), rec)
+		}
+		return
+	}
+	e.count("c_elected")
+	if msgs[0].GetGasEstimate() != gas.Uint64() {
+		r.Violate("fees:election-missing", fmt.Sprintf("%s: elected estimate %d, want %s", c, msgs[0].GetGasEstimate(), gas), rec)
+		return
+	}
+	if fees == nil {
+		r.Violate("fees:not-attached", fmt.Sprintf("%s: estimate elected but no fees attached", c), rec)
+		return
+	}
+	if fees.RelayerFee != relayer.Uint64() {
+		r.Violate("fees:relayer-fee-not-ceil", fmt.Sprintf("%s: relayer fee %d, reference ceil(multiplier*gas)=%s", c, fees.RelayerFee, relayer), rec)
+	}
+	if fees.CommunityFee != community.Uint64() {
+		r.Violate("fees:community-fee-not-ceil", fmt.Sprintf("%s: community fee %d, reference ceil(rate*relayer fee)=%s", c, fees.CommunityFee, community), rec)
+	}
+	if fees.SecurityFee != security.Uint64() {
+		r.Violate("fees:security-fee-not-ceil", fmt.Sprintf("%s: security fee %d, reference ceil(rate*relayer fee)=%s", c, fees.SecurityFee, security), rec)
+	}
+	if c.RC == "0.3" && c.RS == "2.5" && (c.Mult == "1.000001" || c.Mult == "0.000001") && c.Gas != "1" {
+		r.Sample(map[string]interface{}{"part": "c", "case": c.String(), "fees": []uint64{fees.RelayerFee, fees.CommunityFee, fees.SecurityFee}})
+	}
+}
+
+func (e *env) partC(shard, nshards int) {
+	idx := 0
+	for _, m := range cMults {
+		for _, g := range cGas {
+			for _, rc := range cRates {
+				for _, rs := range cRates {
+					idx++
+					if idx%nshards != shard {
+						continue
+					}
+					if e.expired("c") {
+						return
+					}
+					e.evalC(caseC{Mult: m, Gas: g, RC: rc, RS: rs})
+				}
+			}
+		}
+	}
+}
+
+func (e *env) replayC(c caseC) { e.evalC(c) }
+
+var _ sdk.Context
